@@ -36,6 +36,8 @@ def main():
         if not line:
             continue
         case = json.loads(line)
+        import time as _time
+        _t0 = _time.time()
         if st:
             res = {'inconclusive': [st]}
         else:
@@ -48,6 +50,7 @@ def main():
             except BaseException:
                 signal.alarm(0)
                 res = {'inconclusive': ['harness error: ' + traceback.format_exc()[-1500:]]}
+        res['_t'] = round(_time.time() - _t0, 2)
         proto.write(json.dumps(res, default=str) + '\n')
         proto.flush()
 
